@@ -93,6 +93,8 @@ def cases(tier):
                       "(and (forall (?z - t1) (when (> (- (g ?z) (+ (f) (g ?x))) 0) (p ?z))))"),
                      ("(and (or (r) (<= (/ (f) (* 2 (g ?x))) 3)))", "(and (when (< (/ (g ?y) (* (f) (g ?x))) 1) (not (r))))"),
                      ("(and (p ?x) (or (> (* (+ (f) 1) (- (g ?x) 2)) 0) (q ?x ?y)))", "(and (r))"),
+                     # products that land just below an integer in floating point (0.29 * 100, -0.57 * 100)
+                     ("(and (or (r) (>= (* 100 (+ (g ?x) 0.29)) 128.5)))", "(and (when (<= (* 100 (- (g ?x) 0.57)) 43.5) (not (r))))"),
                      ("(and (or (r) (<= (/ 1 (* (g ?x) (g ?x))) 0.3)))", "(and (when (> (/ 1 (* (g ?x) (* (g ?x) (g ?x)))) 0.2) (not (r))))")):
         c = vdom.program("xy", pre, eff, ["const", "identity-operands"])
         c["kind"] = "generated"
